@@ -1,6 +1,6 @@
 #!/bin/bash
 # runs every registered check at the given tier (default quick) on the current tree; prints one line per check
-tier=${1:-quick}; cd /verif
+tier=${1:-quick}; cd "$(dirname "$0")/.."
 for id in $(python3 -c "import json; print(' '.join(c['property_id'] for c in json.load(open('MANIFEST.json'))['checks']))"); do
   s=$(date +%s.%N); out=$(./check $id $tier 2>&1); rc=$?; e=$(date +%s.%N)
   printf "%s rc=%d %.1fs %s\n" $id $rc $(echo "$e - $s" | bc) "$(echo "$out" | tail -1 | cut -c1-150)"
